@@ -14,7 +14,7 @@ ANCHORS = ["Lanelet.interpolate_position", "Lanelet.merge_lanelets", "Lanelet.fi
            "Lanelet.find_lanelet_predecessors_in_range", "Lanelet._compute_polyline_cumsum_dist"]
 REQUIRED = ["interp.at-vertex", "interp.zero", "interp.full-length", "interp.interior", "merge.pred-first",
             "merge.suc-first", "merge.nonuniform-spacing", "graph.cyclic", "graph.diamond-or-merge", "graph.branching",
-            "range.equal-to-partial-length", "pred-search", "succ-search", "graph.curved-lanelets", "poly.int-dtype", "graph.neighbour-list-not-ascending", "merge.via-all_lanelets_by_merging"]
+            "range.equal-to-partial-length", "pred-search", "succ-search", "graph.curved-lanelets", "poly.int-dtype", "graph.neighbour-list-not-ascending", "merge.link-predecessor-list-only", "merge.link-successor-list-only", "merge.via-all_lanelets_by_merging"]
 EXHAUSTIVE = {"quick": "all directed graphs without self loops on 1..3 nodes (as successor relations) x start node x "
                        "range limits {below, equal, above} every partial path length",
               "thorough": "all directed graphs without self loops on 1..4 nodes x start node x range limits"}
@@ -178,10 +178,17 @@ def run(ctx):
             a2 = getattr(l2, attr).copy()
             sh = getattr(l1, attr)[-1] - a2[0]
             setattr(l2, attr, a2 + sh)
-        l2 = Lanelet(l2.left_vertices, l2.center_vertices, l2.right_vertices, 20, predecessor=[10])
+        # the connection may be recorded on both lanelets or on one of them only (the method accepts any of these)
+        link = ["both", "successor-list-only", "predecessor-list-only"][(i // 2) % 3]
+        l2 = Lanelet(l2.left_vertices, l2.center_vertices, l2.right_vertices, 20,
+                     predecessor=[10] if link != "successor-list-only" else [])
+        if link == "predecessor-list-only":
+            l1 = Lanelet(l1.left_vertices, l1.center_vertices, l1.right_vertices, 10, successor=[])
         order = "pred-first" if i % 2 == 0 else "suc-first"
         ctx.evaluation()
         ctx.feature("merge." + order)
+        ctx.feature("merge.link-" + link)
+        order = order + "/link-" + link
         seg1 = l1.distance[1] - l1.distance[0]
         seg2 = l2.distance[1] - l2.distance[0]
         if abs(seg1 - seg2) > 1e-6:
@@ -192,7 +199,7 @@ def run(ctx):
         exp = {a: np.concatenate((getattr(l1, a), getattr(l2, a)[1:])) for a in
                ("left_vertices", "right_vertices", "center_vertices")}
         try:
-            m = Lanelet.merge_lanelets(l1, l2) if order == "pred-first" else Lanelet.merge_lanelets(l2, l1)
+            m = Lanelet.merge_lanelets(l1, l2) if order.startswith("pred-first") else Lanelet.merge_lanelets(l2, l1)
         except Exception as e:  # noqa
             ctx.violation("C20/merge_lanelets/raises-%s/%s" % (type(e).__name__, order), repr(e), {"p1": p1, "p2": p2})
             continue
